@@ -150,6 +150,50 @@ fn probes() -> Vec<Probe> {
         let _ = w.prepare_event_buffer(db, by, 0);
         (w.liquidate_ix(db, &w.m1, w.user, [0x54; 32], LONG_B, by), vec![by])
     });
+    // ---- liquidity actions and keeper maintenance (world: pending deposit, withdrawal and shift of `user`)
+    p!("action:execute_deposit", Role("ORDER_KEEPER"), |w, _db, by| (w.execute_deposit_ix(&w.m1, w.user, [0x61; 32], by, true), vec![by]));
+    p!("action:execute_withdrawal", Role("ORDER_KEEPER"), |w, _db, by| (w.execute_withdrawal_ix(&w.m1, w.user, [0x62; 32], by, true), vec![by]));
+    p!("action:execute_shift", Role("ORDER_KEEPER"), |w, _db, by| (w.execute_shift_ix(&w.m1, &w.m2, w.user, [0x63; 32], by, true), vec![by]));
+    p!("action:update_fees_state", Role("ORDER_KEEPER"), |w, _db, by| {
+        let mut x = ix(w.pid, a::UpdateFeesState { authority: by, store: w.store, token_map: w.token_map, oracle: w.oracle, market: w.m1.market, event_authority: w.event_authority, program: w.pid }, i::UpdateFeesState {});
+        x.accounts.extend(w.feeds_for(&w.m1));
+        (x, vec![by])
+    });
+    p!("action:update_adl_state", Role("ORDER_KEEPER"), |w, _db, by| {
+        let mut x = ix(w.pid, a::UpdateAdlState { authority: by, store: w.store, token_map: w.token_map, oracle: w.oracle, market: w.m1.market, chainlink_program: None }, i::UpdateAdlState { is_long: true });
+        x.accounts.extend(w.feeds_for(&w.m1));
+        (x, vec![by])
+    });
+    p!("action:update_closed_state", Role("ORDER_KEEPER"), |w, _db, by| {
+        let mut x = ix(w.pid, a::UpdateClosedState { authority: by, store: w.store, token_map: w.token_map, oracle: w.oracle, market: w.m1.market }, i::UpdateClosedState {});
+        x.accounts.extend(w.feeds_for(&w.m1));
+        (x, vec![by])
+    });
+    // ---- market creation, token map, virtual inventories
+    p!("initialize_market", Role("MARKET_KEEPER"), |w, _db, by| {
+        let (index, long, short) = (w.a, w.b, w.a);
+        let market_token = Pubkey::find_program_address(&[b"market_token_mint", w.store.as_ref(), index.as_ref(), long.as_ref(), short.as_ref()], &w.pid).0;
+        let market = Pubkey::find_program_address(&[gmsol_store::states::Market::SEED, w.store.as_ref(), market_token.as_ref()], &w.pid).0;
+        (ix(w.pid, a::InitializeMarket { authority: by, store: w.store, market_token_mint: market_token, long_token_mint: long, short_token_mint: short, market, token_map: w.token_map, long_token_vault: w.vault(&long), short_token_vault: w.vault(&short), system_program: sys(), token_program: spl_token::ID }, i::InitializeMarket { index_token_mint: index, name: "A/USD[B-A]".into(), enable: true }), vec![by])
+    });
+    p!("push_to_token_map", Role("MARKET_KEEPER"), |w, db, by| {
+        let token = addr("c19-real-mint");
+        db.set(token, world::mint_acc(6, 0, None));
+        let mut builder = gmsol_utils::token_config::UpdateTokenConfigParams::default();
+        builder.feeds[0] = addr("c19-feed-3");
+        builder.expected_provider = Some(0);
+        (ix(w.pid, a::PushToTokenMap { authority: by, store: w.store, token_map: w.token_map, token, system_program: sys() }, i::PushToTokenMap { name: "C".into(), builder, enable: true, new: true }), vec![by])
+    });
+    p!("create_virtual_inventory_for_swaps", Role("MARKET_KEEPER"), |w, _db, by| {
+        let index = 2u32;
+        let vi = Pubkey::find_program_address(&[gmsol_store::states::market::virtual_inventory::VIRTUAL_INVENTORY_FOR_SWAPS_SEED, w.store.as_ref(), &index.to_le_bytes()], &w.pid).0;
+        (ix(w.pid, a::CreateVirtualInventoryForSwaps { authority: by, store: w.store, virtual_inventory: vi, system_program: sys() }, i::CreateVirtualInventoryForSwaps { index, long_amount_decimals: 6, short_amount_decimals: 6 }), vec![by])
+    });
+    p!("create_virtual_inventory_for_positions", Role("MARKET_KEEPER"), |w, _db, by| {
+        let vi = Pubkey::find_program_address(&[gmsol_store::states::market::virtual_inventory::VIRTUAL_INVENTORY_FOR_POSITIONS_SEED, w.store.as_ref(), w.a.as_ref()], &w.pid).0;
+        (ix(w.pid, a::CreateVirtualInventoryForPositions { authority: by, store: w.store, index_token: w.a, virtual_inventory: vi, system_program: sys() }, i::CreateVirtualInventoryForPositions {}), vec![by])
+    });
+    p!("set_feed_config_market_status_flag", Role("MARKET_KEEPER"), |w, _db, by| (ix(w.pid, a::SetFeedConfigMarketStatusFlag { authority: by, store: w.store, token_map: w.token_map, token: w.a }, i::SetFeedConfigMarketStatusFlag { provider: 0, flag: 0, enable: true }), vec![by]));
     // ---- GLV management (world: a GLV over both markets)
     p!("glv:initialize_glv", Role("MARKET_KEEPER"), |w, _db, by| (crate::glvchk::initialize_glv_ix(w, 5, &[&w.m1, &w.m2], by), vec![by]));
     p!("glv:update_glv_market_config", Role("MARKET_KEEPER"), |w, _db, by| (ix(w.pid, a::UpdateGlvMarketConfig { authority: by, store: w.store, glv: crate::glvchk::glv_keys(w, 0).0, market_token: w.m1.market_token }, i::UpdateGlvMarketConfig { max_amount: Some(5), max_value: None }), vec![by]));
@@ -421,6 +465,23 @@ pub fn run(cli: &Cli) -> Report {
         process(&mut d, &ix(gmsol_liquidity_provider::ID, gmsol_liquidity_provider::accounts::Initialize { global_state: gs, authority: w.admin, system_program: sys() }, gmsol_liquidity_provider::instruction::Initialize { min_stake_value: 1, initial_apy: 1 }), &[w.admin]).expect("lp initialize");
         d
     };
+    // liquidity actions: pending deposit, withdrawal and shift of `user`, feeds published after their creation
+    let db_actions = {
+        let mut d = db.clone();
+        W::set_time(1_000);
+        let seed = [9u8; 32];
+        for (m, who) in [(w.m1.clone(), w.user2), (w.m2.clone(), w.user2), (w.m1.clone(), w.user)] {
+            w.create_deposit(&mut d, &m, who, seed, 5_000_000, 60_000_000, 0, who).expect("seed create");
+            w.execute_deposit(&mut d, &m, who, seed, w.keeper, true).expect("seed execute");
+            w.close_deposit(&mut d, &m, who, seed, who).expect("seed close");
+        }
+        let gm = world::token_amount(&d, &world::ata(&w.user, &w.m1.market_token));
+        w.create_deposit(&mut d, &w.m1, w.user, [0x61; 32], 1_000_000, 12_000_000, 0, w.user).expect("create deposit");
+        w.create_withdrawal(&mut d, &w.m1, w.user, [0x62; 32], gm / 5, 0, 0, w.user).expect("create withdrawal");
+        w.create_shift(&mut d, &w.m1, &w.m2, w.user, [0x63; 32], gm / 7, 0).expect("create shift");
+        w.set_feeds(&mut d, 1_000, (12_0000_0000, 12_0000_0000), (1_0000_0000, 1_0000_0000));
+        d
+    };
     let ps = probes();
     let names: Vec<&str> = ps.iter().map(|p| p.name).collect();
     rep.extra.insert("instructions_probed".into(), json!(names));
@@ -429,7 +490,7 @@ pub fn run(cli: &Cli) -> Report {
         W::set_time(1_000);
         crate::svm::set_last_restart_slot(0);
         let p = &ps[pi];
-        let db = if p.name.starts_with("gt_") || p.name.starts_with("update_gt") { &db_gt } else if p.name.starts_with("order:") { &db_orders } else if p.name.starts_with("glv:") { &db_glv } else if p.name.starts_with("lp:") { &db_lp } else if p.name.starts_with("treasury:") { &db_treasury } else { &db };
+        let db = if p.name.starts_with("gt_") || p.name.starts_with("update_gt") { &db_gt } else if p.name.starts_with("order:") { &db_orders } else if p.name.starts_with("action:") { &db_actions } else if p.name.starts_with("glv:") { &db_glv } else if p.name.starts_with("lp:") { &db_lp } else if p.name.starts_with("treasury:") { &db_treasury } else { &db };
         let entitled: Vec<Pubkey> = match &p.need {
             Need::Admin | Need::Receiver => vec![w.admin],
             Need::AdminOrRestartAdminAfterRestart => vec![w.admin, holder("RESTART_ADMIN")],
@@ -446,7 +507,10 @@ pub fn run(cli: &Cli) -> Report {
                 Ok(()) => sink.count("entitled_signer_succeeded"),
                 Err(e) if is_auth_error(e) => sink.fail("C19/entitled_signer_rejected", format!("{}: the entitled signer was rejected with {e:?}", p.name), json!({"instruction": p.name})),
                 // a program-level error other than an authorisation error means the access check was passed
-                Err(e) if e.code().map(|c| c >= 6000).unwrap_or(false) => sink.count("entitled_signer_passed_authorisation_then_failed"),
+                Err(e) if e.code().map(|c| c >= 6000).unwrap_or(false) => {
+                    sink.count("entitled_signer_passed_authorisation_then_failed");
+                    sink.count(&format!("passed_authorisation_then_failed:{}:{}", p.name, e.code().unwrap_or(0)));
+                }
                 Err(e) => {
                     sink.count("entitled_signer_failed_for_another_reason");
                     sink.fail(&format!("C19/probe_not_valid/{}", p.name), format!("{}: the probe does not reach a successful execution with the entitled signer: {e:?}", p.name), json!({"instruction": p.name}));
